@@ -16,6 +16,19 @@ class _Boom(Exception):
 Boom = _Boom
 
 
+class Custom(Exception):
+    """an exception class whose constructor does not take its own `args` tuple back (two required parameters, one arg) -
+    the usual shape of application exceptions"""
+
+    def __init__(self, value, tag):
+        super().__init__(value)
+        self.tag = tag
+
+
+def mkboom(v):
+    return Custom(v, 'tag') if Boom is Custom else Boom(v)
+
+
 class Abort(BaseException):
     """a failure class that does not derive from Exception (Event.fail accepts any BaseException)"""
 
@@ -36,14 +49,14 @@ def h_event(cfg):
         return sym_num(name, sort_of(sorts, i), 0)
 
     global Boom
-    Boom = Abort if cfg.get('exc') == 'base' else _Boom
+    Boom = {'base': Abort, 'custom': Custom}.get(cfg.get('exc'), _Boom)
     V = sym_int('V')
     fails = target in ('fail', 'child-raise')
     step = [0]
     regs, dels = [], []          # (waiter, step, now) / (waiter, step, now, kind, payload, excobj)
     box = {}
     tT = num('tT')
-    orig_exc = Boom(V)
+    orig_exc = mkboom(V)
 
     def child():
         yield env.timeout(tT)
@@ -68,7 +81,7 @@ def h_event(cfg):
                 if second == 'succeed':
                     tmo.succeed(tmo.value if cfg.get('second_same') else V + 1)
                 else:
-                    tmo.fail(Boom(V + 1))
+                    tmo.fail(mkboom(V + 1))
                 fail('c02.second-trigger-raises', 'no RuntimeError for a pending Timeout')
             except RuntimeError:
                 pass
@@ -83,7 +96,7 @@ def h_event(cfg):
                     # 'same': the very value object of the first trigger (repeating a notification is still a second trigger)
                     E.succeed(E.value if cfg.get('second_same') and E.ok else V + 1)
                 else:
-                    E.fail(E.value if cfg.get('second_same') and not E.ok else Boom(V + 1))
+                    E.fail(E.value if cfg.get('second_same') and not E.ok else mkboom(V + 1))
                 fail('c02.second-trigger-raises', 'no RuntimeError')
             except RuntimeError:
                 cover('second-trigger-refused')
@@ -296,6 +309,8 @@ def jobs(tier, seed):
             for ws in ([P], [Pn, P], [P, Pn, P], [C, Pn]):
                 js.append({'harness': 'event', 'weight': 4 ** len(ws),
                            'cfg': {'target': target, 'waiters': ws, 'sorts': 'int', 'exc': 'base'}})
+                js.append({'harness': 'event', 'weight': 4 ** len(ws),
+                           'cfg': {'target': target, 'waiters': ws, 'sorts': 'int', 'exc': 'custom'}})
         if not target.startswith('child'):
             for sec in ('succeed', 'fail'):
                 js.append({'harness': 'event', 'weight': 8,
